@@ -54,6 +54,9 @@ class Module:
         self.tree = tree
         from .normalize import normalize
         self.normal_form = normalize(name, self.tree)
+        from .normalize import FLATTENED
+        if FLATTENED.get(name):
+            self.normal_form["flattened_bases"] = FLATTENED[name]
         SHARED = (ast.expr_context, ast.boolop, ast.operator, ast.unaryop, ast.cmpop)   # CPython shares one instance of each per interpreter
         # document order of the NORMAL FORM (inlined code keeps the line numbers of where it was written, for reports; order
         # questions - does this store precede that use? - are answered with pos(), never with line numbers)
